@@ -192,10 +192,14 @@ func equalInts(a, b []int) bool {
 // ---------------------------------------------------------------------------------------------- C13
 
 func runThrottle(sc *Scenario) (res Result) {
-	ctx, cancel := context.WithCancel(context.Background())
-	defer cancel()
 	start := time.Now()
 	unit := sc.unit()
+	ctx, cancel := context.WithCancel(context.Background())
+	if sc.Deadline && sc.T.CancelAt > 0 && !sc.PreCancel {
+		// a real deadline context: it expires by itself at the scenario's cancel time (virtual clock) and reports its deadline
+		ctx, cancel = context.WithDeadline(context.Background(), start.Add(time.Duration(sc.T.CancelAt)*unit))
+	}
+	defer cancel()
 	ops := max(sc.Ops, 1)
 	interval := time.Duration(max(sc.Interval, 1)) * unit
 	c := sc.Caps0()
@@ -405,6 +409,9 @@ func runGenerator(sc *Scenario) (res Result) {
 	e := &env{sc: sc, calls: map[int]int{}, errs: map[int]*stageErr{}, envStop: make(chan struct{}), start: time.Now()}
 	e.ctx, e.cancel = context.WithCancel(context.Background())
 	unit := sc.unit()
+	if sc.Deadline && sc.T.CancelAt > 0 && !sc.PreCancel {
+		e.ctx, e.cancel = context.WithDeadline(context.Background(), e.start.Add(time.Duration(sc.T.CancelAt)*unit))
+	}
 	freq := time.Duration(max(sc.Freq, 1)) * unit
 	if len(sc.T.Slow) > 0 {
 		e.slow = func(i int) time.Duration {
@@ -638,7 +645,20 @@ func runGenerator(sc *Scenario) (res Result) {
 		res.Msg = msg
 		return
 	}
-	// cancel: both channels must close and every goroutine must exit, with nobody receiving any more
+	// cancel: both channels must close and every goroutine must exit.  The values are not received any more; the errors
+	// keep being read during the horizon (a stage whose only cancel check sits behind a successful error hand-over would
+	// go on for ever), then nobody reads anything
+	finish()
+	mu.Lock()
+	stillOpen := !errClosed
+	mu.Unlock()
+	if stillOpen {
+		close(e.envStop)
+		res.Msg = fmt.Sprintf("%s: %d periods after the cancel the error channel is still open although every error was being received (the stage goes on after the cancel)", sc.Stage, 4*sc.Caps0()+32)
+		synctest.Wait()
+		finish()
+		return
+	}
 	close(e.envStop)
 	synctest.Wait()
 	finish()
